@@ -44,6 +44,12 @@ MANIFEST = dict(
 TRUSTED_EXTRA = ["harness/djv_wrap.cpp (sqlite3_step wrapper: statement kinds, fault injection), "
                  "harness/djv_monitors.cpp (full observation), tools/monitors_gen.py (history generator)"]
 STATELESS = False
+SELF_TEST = {"recorded": "2026-09-29, scratch worktree of /repo, quick tier seeds 1-3 (not re-run by the check)", "seeded_changes": {
+    "seeded/C14-2 (independent: 2.x playlist_entity_table::clear removes entity by entity without a scope)": "missed before Hist.enrich, caught since: crate.clear_tracks k=1 partial update",
+    "seeded/sv-C14-drop-scope-v2-bpm": "caught: corpus witness v2_set_bpm + sweep",
+    "seeded/sv-C14-drop-scope-v1-path (commit before the last statement)": "caught: track.set_relative_path k=4 partial update",
+    "seeded/sv-C14-no-rollback-on-unwind": "caught: transaction left open, retry fails",
+    "seeded/sv-refactor-reorder-writes, seeded/sv-refactor-getter-in-scope (behaviour preserving)": "green"}}
 
 
 # ------------------------------------------------------------------ the operations under test
@@ -400,6 +406,7 @@ def tie(ctx):
         },
         "divergences": divergences[:20],
         "violations": vout,
+        "self_test": SELF_TEST,
         "exhaustive": True,
     }
 
